@@ -128,3 +128,20 @@ JOBS += [
              note='UNDECIDED: not run to completion (same reason as c13_disp_parse_row_group)'),
     disp_job('parquet_parse_page_header', 'h_disp_page_header', wip=False, est_s=40),
 ]
+
+# ---- C13/C14 field semantics: what the output struct holds for one ghost field with ghost value (exact memset) -------
+def sem_job(fn, entry, size, props=('C13',), **kw):
+    d = disp_job(fn, entry, props=props, name='c13_sem_' + fn,
+                 defines=['CQV_PT_RLOG=1', 'CQV_PT_ARENA_BODIES=1', 'CQV_ALLOC_NEVER_FAILS=1', 'CQV_MEMSET_EXACT=%d' % size],
+                 unwindset=['memset.0:%d' % (size + 1)],
+                 bound='struct with no field or exactly one field (arbitrary id and wire type, arbitrary value); nested structs empty',
+                 wip=False, est_s=20)
+    d.update(kw)
+    return d
+
+
+JOBS += [
+    sem_job('parquet_parse_page_header', 'h_sem_page_header', 144, props=('C13', 'C14')),
+    sem_job('parse_statistics', 'h_sem_statistics', 88),
+    sem_job('parse_schema_element', 'h_sem_schema_element', 80),
+]
